@@ -15,6 +15,17 @@ CLAIMED = {
         note='Lean kernel + Mathlib; translator gen/*.py; hand models tied only on explored inputs; real-number '
              'semantics (no IEEE rounding in theorems); Eigen cwiseMax/Min = std::max/min.',
         design='§6 C15'),
+    'C06': dict(
+        technique='Lean 4 proof about the translator-generated status chain / stopping criteria (any carrier, IEEE semantics via XR) + bit-exact correspondence + monitors',
+        category='proof',
+        text='statusChain, calcErrorStopCrit (10 criteria + PANOC-OCP copy), requiresGradHat and the no-progress update are '
+             'regenerated from the C++ on every run; theorems: Converged iff eps <= tol\', converged wins, each other status only '
+             'under its documented condition, non-finite never Converged, chains agree, no-progress counter <= consecutive '
+             'unchanged iterations (induction over the run), criteria = documented formulas, requires-grad table sound. '
+             'Loop-level parts (iteration bound, eps computed from the final iterate) proved on the PANOC loop model and '
+             'monitored on all real solvers.',
+        note='Lean kernel + Mathlib; translator gen/gen_c06.py; time limit and stop flag are Boolean oracles; real-number semantics for formulas.',
+        design='§6 C06'),
 }
 
 NOT_YET = {
